@@ -35,6 +35,9 @@ ABS_SRC = {
 }
 
 
+TAIL_ORG = 0xFE00
+
+
 class AsmLayout:
     name = "asm_layout"
     props = ("C02", "C03", "C13", "C01", "C04", "C17")
@@ -66,6 +69,9 @@ class AsmLayout:
                 for k in ABS_SRC:
                     out.append({"id": "%s/%s/%s" % (k, direction, org), "kind": "abs", "src": k, "dir": direction, "org": org,
                                 "nspell": "dec3"})
+        for k in PCR_SRC:
+            out.append({"id": "%s/bwd/org/dec3/org-after" % k, "kind": "pcr", "src": k, "dir": "bwd", "org": "org", "nspell": "dec3",
+                        "tail": "org"})
         # several mutually dependent PCR statements (bounded: 2 and 3 statements)
         for shape in ("2fwd", "2cross", "2bwd", "3mix"):
             out.append({"id": "pcr-multi/%s" % shape, "kind": "multi", "shape": shape,
@@ -122,6 +128,9 @@ class AsmLayout:
         else:
             body = ["T NOP\n", gap, src_line, " NOP\n"]
             si, ti, gi = len(head) + 2, len(head), len(head) + 1
+            if cell.get("tail") == "org":
+                # the statement that follows the source statement is an ORG: the one statement whose address does not run on
+                body = ["T NOP\n", gap, src_line, " ORG $%04X\n" % TAIL_ORG, " NOP\n"]
         return head + body, org, n, si, ti, gi
 
     def _layout(self, env, run, org, n, gi, sig, has_org, split=None):
@@ -131,6 +140,10 @@ class AsmLayout:
         ok_chain = True
         for k, st in enumerate(run.stmts):
             if st.is_org:
+                if k > 0 and has_org:
+                    a = TAIL_ORG
+                    addrs.append(TAIL_ORG)
+                    continue
                 addrs.append(org)
                 continue
             addrs.append(a)
@@ -220,7 +233,7 @@ class AsmLayout:
             env.fail("C02:symbol-value", ("C02",), sig("symbol-T-missing"), split=split)
         else:
             env.ensure("C02:symbol-value", tv == addrs[ti], ("C02",), sig("symbol!=listing-address"), split=split)
-        if cell["org"] == "org":
+        if cell["org"] == "org" and not cell.get("tail"):       # (what the origin is with two ORGs: placement/second-org)
             if run.origin is None:
                 env.fail("C02:origin", ("C02", "C11"), sig("origin-missing"), split=split)
             else:
